@@ -341,6 +341,13 @@ func exec(c *Ctx, f *ssa.Function, dom *Domain, visits int) ([]*Path, bool) {
 	return paths, ok
 }
 
+func execNoInline(c *Ctx, f *ssa.Function, dom *Domain, visits int) ([]*Path, bool) {
+	paths, ok := pathsOf(c.P, f, dom, execOpts{MaxVisits: visits, Pure: c.Mod.PureCall, NoInline: true})
+	c.R.count("paths", len(paths))
+	c.R.count("functions_path_analysed", 1)
+	return paths, ok
+}
+
 func (c *Ctx) fpos(f *ssa.Function) string { return c.P.pos(f.Pos()) }
 
 func (c *Ctx) ipos(in ssa.Instruction) string { return c.P.pos(instrPos(in)) }
